@@ -24,9 +24,9 @@ fn header(ty: u8, tag: u16, tm: u64) -> Vec<u8> {
     b[14] = 8;
     b[15] = ty;
     b[16..18].copy_from_slice(&tag.to_be_bytes());
-    // symbolic time 0 = the epoch itself ("not timestamped"), 1 = the smallest kind of positive instant (a quarter
-    // of a second after the epoch), k >= 2 = k seconds into day 19,800
-    let (date, ms): (u16, u32) = match tm { 0 => (1, 0), 1 => (1, 250), _ => (19_800, tm as u32 * 1000) };
+    // symbolic time 0 = the epoch itself ("not timestamped"), 1 = the smallest positive instant (one millisecond
+    // after the epoch), k >= 2 = k seconds into day 19,800
+    let (date, ms): (u16, u32) = match tm { 0 => (1, 0), 1 => (1, 1), _ => (19_800, tm as u32 * 1000) };
     b[18..20].copy_from_slice(&date.to_be_bytes());
     b[20..24].copy_from_slice(&ms.to_be_bytes());
     b
@@ -66,7 +66,7 @@ fn frame(l: &Layouts, rng: &mut Rng, s: &Sym, idx: usize) -> Vec<u8> {
 }
 
 fn tm_of(t: Option<DateTime<Utc>>) -> i64 {
-    match t { None => -1, Some(t) => { if t.timestamp_millis() == 0 { 0 } else if t.timestamp_millis() == 250 { 1 } else if t.year() == 2024 || t.year() >= 1970 { (t.num_seconds_from_midnight()) as i64 } else { -2 } } }
+    match t { None => -1, Some(t) => { if t.timestamp_millis() == 0 { 0 } else if t.timestamp_millis() == 1 { 1 } else if t.year() == 2024 || t.year() >= 1970 { (t.num_seconds_from_midnight()) as i64 } else { -2 } } }
 }
 fn label_to_product(l: &str) -> &'static str {
     match l { "Reflectivity" => "REF", "Velocity" => "VEL", "Spectrum Width" => "SW", "Differential Reflectivity" => "ZDR", "Differential Phase" => "PHI", "Correlation Coefficient" => "RHO", "Specific Differential Phase" => "CFP", _ => "?" }
